@@ -1067,3 +1067,53 @@ pub fn root_pointer_packets(max_tail: usize, mut f: impl FnMut(u64, &[u8])) -> u
     }
     g
 }
+
+/// Parameters of one packet of the "very many small records" family.
+#[derive(Clone, Copy, Debug)]
+pub struct ManyParams {
+    pub kind: usize,  // 0: root owner, unknown type, no data (11 bytes); 1: owner = pointer to the question, A (16 bytes); 2: root owner TXT with empty data
+    pub n: usize,     // records
+    pub split: usize, // 0: all answers, 1: all additional, 2: a third each
+    pub q: usize,     // 0: root question, 1: example.com
+}
+
+pub fn many_params() -> Vec<ManyParams> {
+    let mut v = vec![];
+    for kind in 0..3 {
+        for n in [5usize, 6, 17, 18, 19, 100, 1000, 5000, 20000, 65535] {
+            for split in 0..3 {
+                for q in 0..2 {
+                    v.push(ManyParams { kind, n, split, q });
+                }
+            }
+        }
+    }
+    v
+}
+
+/// Well-formed by construction: a response with a question and `n` genuine minimal records.
+pub fn many_record_packet(p: ManyParams) -> Vec<u8> {
+    let (an, ns, ar) = match p.split {
+        0 => (p.n, 0, 0),
+        1 => (0, 0, p.n),
+        _ => (p.n / 3, p.n / 3, p.n - 2 * (p.n / 3)),
+    };
+    let mut b = vec![0x12, 0x34, 0x84, 0x00, 0, 1];
+    for c in [an, ns, ar] {
+        b.extend_from_slice(&(c as u16).to_be_bytes());
+    }
+    if p.q == 0 {
+        b.push(0);
+    } else {
+        b.extend_from_slice(&nm("example.com"));
+    }
+    b.extend_from_slice(&[0, 1, 0, 1]);
+    for i in 0..p.n {
+        match p.kind {
+            0 => b.extend_from_slice(&[0, 0xff, 0x01, 0, 1, 0, 0, 0, (i % 251) as u8, 0, 0]),
+            1 => b.extend_from_slice(&[0xc0, 12, 0, 1, 0, 1, 0, 0, 0, (i % 251) as u8, 0, 4, 10, 0, (i >> 8) as u8, i as u8]),
+            _ => b.extend_from_slice(&[0, 0, 16, 0, 1, 0, 0, 0, (i % 251) as u8, 0, 0]),
+        }
+    }
+    b
+}
